@@ -66,6 +66,9 @@ def snapshot_tree():
             h.update(fn.encode() + b"\0" + data + b"\0")
             with open(os.path.join(pkg, fn), "wb") as f:
                 f.write(data)
+    # byte-compile the snapshot once, so that the per-run "fresh import of bisturi" costs ~1 ms
+    import compileall
+    compileall.compile_dir(pkg, quiet=2, workers=1)
     return dst, h.hexdigest()[:16]
 
 
@@ -316,8 +319,9 @@ def run_check(eng, tier, jobs=None, runs=None, quiet=False):
         "property_id": eng.prop, "tier": tier, "seed": seed, "level": eng.level, "coverage": cov,
         "assumptions": eng.assumptions, "wall_s": round(wall, 2), "violations": len(reported),
     }
-    os.makedirs(os.path.join(VERIF, "evidence"), exist_ok=True)
-    with open(os.path.join(VERIF, "evidence", "%s.json" % eng.prop), "w") as f:
+    evdir = os.path.join(VERIF, "evidence") if not os.environ.get("BSIM_NO_EVIDENCE") else os.path.join(scratch, "evidence")
+    os.makedirs(evdir, exist_ok=True)
+    with open(os.path.join(evdir, "%s.json" % eng.prop), "w") as f:
         json.dump(ev, f, indent=1, sort_keys=True, default=str)
         f.write("\n")
 
@@ -365,8 +369,9 @@ def minimise_and_write(eng, v, seed, tier, tree_digest, budget=None):
         "event_digest": out.event_digest(), "minimised": minimised, "reproduced_in_process": bool(ok),
         "original_draw_count": len(v["draws"]), "events": out.events[-300:],
     }
-    os.makedirs(os.path.join(VERIF, "replays"), exist_ok=True)
-    path = os.path.join(VERIF, "replays", "%s-%d-%d.json" % (eng.prop, seed, v["run"]))
+    rdir = os.path.join(VERIF, "replays") if not os.environ.get("BSIM_NO_EVIDENCE") else os.path.join(scratch_root(), "replays")
+    os.makedirs(rdir, exist_ok=True)
+    path = os.path.join(rdir, "%s-%d-%d.json" % (eng.prop, seed, v["run"]))
     with open(path, "w") as f:
         json.dump(rp, f, indent=1, default=str)
         f.write("\n")
@@ -403,8 +408,14 @@ def replay_file(eng_lookup, path, quiet=False):
     eng = engines.get(rp["engine"])
     tree, tree_digest = snapshot_tree()
     eng.init_worker(tree, os.path.join(scratch_root(), "replay"))
-    out, canon = replay_values(eng, rp["scenario"], rp["draws"])
+    ch = Chooser(replay=rp["draws"])
+    out = eng.execute(rp["scenario"], ch)
     want = (rp["violation"]["oracle"], rp["violation"].get("actor", ""))
+    rec_labels = [l for (l, _, _) in rp.get("labelled_draws", [])]
+    now_labels = [l for (l, _, _) in ch.record][:len(rec_labels)]
+    if rec_labels and rec_labels[:len(now_labels)] != now_labels:
+        print("note: the draw labels of this run differ from the recording: either the tree takes another path "
+              "(expected after a fix) or the generator changed since the file was written")
     if not quiet:
         for e in out.events:
             print("  | " + e)
